@@ -3,10 +3,12 @@
 package quic
 
 import (
+	"context"
 	"fmt"
 	"sync"
 	"testing"
 	"testing/synctest"
+	"time"
 
 	"golang.org/x/net/internal/verifrt"
 )
@@ -447,6 +449,181 @@ func TestVerif_C20(t *testing.T) {
 		})
 		r.Eval(true, "resetfinal", side, styp, wc, got, order, over)
 	})
+	// (b3) the limit the endpoint enforces is the limit it has put on the wire, also while it is
+	// congestion-limited: a local stream X has filled the congestion window (the peer
+	// acknowledges nothing), so a MAX_STREAM_DATA update that falls due when the application
+	// reads a peer stream may find no room in the one packet that can still be sent - X, with a
+	// STREAM_DATA_BLOCKED or FIN to send and more than a packet of data, precedes it in the send
+	// queue. The peer tracks the largest limit it has actually been sent for each of its streams
+	// and then either fills it exactly (must be accepted) or goes 1-3 bytes beyond it
+	// (FLOW_CONTROL_ERROR).
+	r.Cases("scripted-overrun-while-congestion-limited", r.N(400, 4000), func(c *verifrt.Case) {
+		rng := c.Rng
+		side := []connSide{serverSide, clientSide}[rng.IntN(2)]
+		ytyp := []streamType{bidiStream, uniStream}[rng.IntN(2)]
+		xtyp := []streamType{bidiStream, uniStream}[rng.IntN(2)]
+		rw := []int64{64, 100, 500, 1000}[rng.IntN(4)]
+		nY := 1 + rng.IntN(3)
+		room := []int{1, 1, 1, 0, 2}[rng.IntN(5)]                   // packets of congestion window left when the updates fall due
+		xMeta := []string{"blocked", "blocked", "fin"}[rng.IntN(3)] // why X is among the streams with control frames to send
+		slack := []int64{0, 500, 1150, 1300, 3000}[rng.IntN(5)]     // window the peer leaves X for the last write
+		extra := []int64{1, 100, 1300}[rng.IntN(3)]                 // what that write has beyond the window
+		oneStep := rng.IntN(4) != 0                                 // write and reads between two iterations of the conn's loop
+		readFirst := rng.IntN(4) == 0
+		over := rng.IntN(4) != 0
+		c.Describe(map[string]any{"side": fmt.Sprint(side), "peer_stream_type": fmt.Sprint(ytyp), "local_stream_type": fmt.Sprint(xtyp), "read_window": rw, "peer_streams": nY,
+			"cwnd_packets_left": room, "x_has": xMeta, "x_window_left": slack, "x_beyond_window": extra, "one_loop_step": oneStep, "read_before_write": readFirst, "beyond_limit": over})
+		synctest.Test(t, func(t *testing.T) {
+			tc := vlpScripted(t, side, func(cfg *Config) {
+				cfg.MaxStreamReadBufferSize = rw
+				cfg.MaxConnReadBufferSize = 1 << 20
+			}, func(p *transportParameters) {
+				p.initialMaxStreamsUni = 10
+				p.initialMaxStreamsBidi = 10
+				p.initialMaxData = 1 << 21
+				p.initialMaxStreamDataUni = 1000
+				p.initialMaxStreamDataBidiRemote = 1000
+				p.initialMaxStreamDataBidiLocal = 1000
+			})
+			type ys struct {
+				id  streamID
+				s   *Stream
+				adv int64
+			}
+			var yy []*ys
+			for i := 0; i < nY; i++ {
+				y := &ys{id: newStreamID(side.peer(), ytyp, int64(i)), adv: rw}
+				tc.writeFrames(packetType1RTT, debugFrameStream{id: y.id, off: 0, data: make([]byte, rw)})
+				st, err := tc.conn.AcceptStream(canceledContext())
+				if err != nil {
+					c.Violation("scripted-accept-error", "AcceptStream: %v", err)
+					return
+				}
+				st.SetReadContext(canceledContext())
+				st.SetWriteContext(canceledContext())
+				y.s = st
+				yy = append(yy, y)
+			}
+			closedAs := func(fs []debugFrame) (transportError, string, bool) {
+				for _, f := range fs {
+					if m, ok := f.(debugFrameMaxStreamData); ok {
+						for _, y := range yy {
+							if y.id == m.id && m.max > y.adv {
+								y.adv = m.max
+							}
+						}
+					}
+				}
+				return vlpCloseCode(fs)
+			}
+			if code, reason, closed := closedAs(vlpDrain(tc)); closed {
+				c.Violation("legal-data-rejected", "peer filled the windows of %d new streams exactly (%d bytes each) and got CONNECTION_CLOSE %v %q", nY, rw, code, reason)
+				return
+			}
+			x, err := tc.conn.newLocalStream(canceledContext(), xtyp)
+			if err != nil {
+				c.Violation("scripted-newstream-error", "newLocalStream: %v", err)
+				return
+			}
+			x.SetReadContext(canceledContext())
+			x.SetWriteContext(canceledContext())
+			// fill the congestion window to the chosen distance (white-box: the controller's numbers)
+			cc := func() (inFlight, cwnd, dgram int) {
+				tc.conn.runOnLoop(context.Background(), func(now time.Time, c *Conn) {
+					inFlight, cwnd, dgram = c.loss.cc.bytesInFlight, c.loss.cc.congestionWindow, c.loss.cc.maxDatagramSize
+				})
+				return
+			}
+			var sentX int64
+			for i := 0; i < 40; i++ {
+				inFlight, cwnd, dgram := cc()
+				if inFlight+(room+1)*dgram > cwnd {
+					break
+				}
+				if i > 0 {
+					tc.writeFrames(packetType1RTT, debugFrameMaxStreamData{id: x.id, max: sentX + 1000})
+				}
+				n, _ := x.Write(make([]byte, 1000))
+				sentX += int64(n)
+				x.Flush()
+				closedAs(vlpDrain(tc))
+			}
+			inFlight, cwnd, dgram := cc()
+			if !(inFlight+room*dgram <= cwnd && inFlight+(room+1)*dgram > cwnd) {
+				r.Event("congestion_limited_setup_missed", 1)
+				return
+			}
+			last := slack + extra
+			if xMeta == "fin" {
+				tc.writeFrames(packetType1RTT, debugFrameMaxStreamData{id: x.id, max: sentX + 1<<20})
+				last = 1200 + slack
+			} else if slack > 0 {
+				tc.writeFrames(packetType1RTT, debugFrameMaxStreamData{id: x.id, max: sentX + slack})
+			}
+			closedAs(vlpDrain(tc))
+			step := func() {
+				wr := func() {
+					x.Write(make([]byte, last))
+					if xMeta == "fin" {
+						x.CloseWrite()
+					} else {
+						x.Flush()
+					}
+				}
+				rd := func() {
+					for _, y := range yy {
+						if rng.IntN(4) != 0 {
+							n := rw
+							if rng.IntN(4) == 0 {
+								n = 1 + rng.Int64N(rw)
+							}
+							y.s.Read(make([]byte, n))
+						}
+					}
+				}
+				if readFirst {
+					rd()
+					wr()
+				} else {
+					wr()
+					rd()
+				}
+			}
+			if oneStep {
+				tc.conn.runOnLoop(context.Background(), func(now time.Time, c *Conn) { step() })
+			} else {
+				step()
+			}
+			if code, reason, closed := closedAs(vlpDrain(tc)); closed {
+				c.Violation("legal-data-rejected", "nothing but reads and writes of the application happened and the connection was closed: %v %q", code, reason)
+				return
+			}
+			y := yy[rng.IntN(len(yy))]
+			n := y.adv - rw
+			if over {
+				n += 1 + rng.Int64N(3)
+			}
+			tc.writeFrames(packetType1RTT, debugFrameStream{id: y.id, off: rw, data: make([]byte, n)})
+			frames := vlpDrain(tc)
+			code, reason, closed := closedAs(frames)
+			switch {
+			case !over && closed:
+				c.Violation("legal-data-rejected", "STREAM [%d,%d) on stream %d stays inside the largest MAX_STREAM_DATA sent for it (%d) and got CONNECTION_CLOSE %v %q", rw, rw+n, y.id, y.adv, code, reason)
+			case !over:
+				r.Event("within_limit_scripts_accepted", 1)
+			case !closed:
+				c.Violation("overrun-not-rejected:limit-never-put-on-the-wire", "the largest stream data limit the endpoint has sent for stream %d is %d (initial %d); the peer sent STREAM [%d,%d), %d bytes beyond it, and no CONNECTION_CLOSE followed; the endpoint was congestion-limited (%d of %d bytes in flight, datagram size %d) when the application read the stream; frames sent instead: %v", y.id, y.adv, rw, rw, rw+n, rw+n-y.adv, inFlight, cwnd, dgram, frames)
+			case code != errFlowControl:
+				c.Violation("overrun-wrong-error-code", "expected FLOW_CONTROL_ERROR, got code %v (%q)", code, reason)
+			default:
+				r.Event("overruns_rejected_while_congestion_limited", 1)
+				if y.adv == rw {
+					r.Event("overruns_rejected_while_no_limit_update_had_been_sent", 1)
+				}
+			}
+		})
+		r.Eval(true, "congested", side, ytyp, xtyp, rw, nY, room, xMeta, slack, extra, oneStep, readFirst, over)
+	})
 	// (c) deterministic script: asymmetric peer transport parameters, late and stale limit
 	// raises, loss and PTO (zz_verif_util_scriptedlimits_test.go)
 	nsl := r.N(1500, 40000)
@@ -472,4 +649,6 @@ func TestVerif_C20(t *testing.T) {
 	r.Require("overruns_rejected_before_max_data_was_sent", 100)
 	r.Require("reset_final_sizes_beyond_max_data_rejected", 100)
 	r.Require("within_limit_scripts_accepted", 50)
+	r.Require("overruns_rejected_while_congestion_limited", 50)
+	r.Require("overruns_rejected_while_no_limit_update_had_been_sent", 10)
 }
